@@ -146,6 +146,20 @@ Theorem C05_sink_count_stays_whole : forall c ops1 ops2 g1 g2 i k r,
 Proof. exact sink_count_stays_whole. Qed.
 Print Assumptions C05_sink_count_stays_whole.
 
+(* the packet a reader mapped in g1 (frames fs from its cursor) is still in the ring, header by header, in every
+   later state g2 reached while the reader keeps the slice mapped: it is whole when storage_append / the client
+   actually walk it, not only at the instant of the mapping *)
+Theorem C05_packet_stays_whole : forall c ops1 ops2 g1 g2 i r fs base,
+  0 < c -> grun (ginit c) ops1 = Some g1 -> hist_ok frame_hist_op (ginit c) ops1 ->
+  grun g1 ops2 = Some g2 -> hist_ok frame_hist_op g1 ops2 -> Forall (not_by i) ops2 ->
+  nth_error (rds (cs g1)) i = Some r -> rmapped r = true ->
+  chain (bounds g1) (idx g1 r) fs -> total fs = avail r (high (cs g1)) ->
+  holds_packet (hdr_mem g2 base) (base + hpos r) fs /\
+  exists r', nth_error (rds (cs g2)) i = Some r' /\ rmapped r' = true /\ hpos r' = hpos r /\
+    avail r' (high (cs g2)) = avail r (high (cs g1)).
+Proof. exact packet_stays_whole. Qed.
+Print Assumptions C05_packet_stays_whole.
+
 (* in every reachable state every reader's cursor, and the end of every mapped slice, is a write boundary *)
 Theorem C05_holds_on_frame_boundaries : forall c ops g j r,
   0 < c -> grun (ginit c) ops = Some g -> hist_ok frame_hist_op (ginit c) ops ->
